@@ -222,9 +222,15 @@ class NF:
                 return self.nf(args[0])
             if name == 'len' and len(args) == 1:
                 return Lin.atom(('len', self.nf_any(args[0])))
+            if name in ('np.max', 'np.amax') and len(args) == 1:
+                return Lin.atom(('amax', self.nf(args[0])))
+            if name in ('np.min', 'np.amin') and len(args) == 1:
+                return Lin.atom(('amin', self.nf(args[0])))
             return Lin.atom(('call', name) + tuple(self.nf_any(x) for x in args))
         if op == 'param':
             return Lin.atom(('param', a[0]))
+        if op == 'm' and a and a[0] in ('max', 'min') and len(a) == 2:
+            return Lin.atom(('amax' if a[0] == 'max' else 'amin', self.nf(a[1])))
         if op in ('attr', 'index', 'item', 'slice'):
             return Lin.atom((op,) + tuple(self.nf_any(x) for x in a))
         return Lin.atom((op,) + tuple(self.nf_any(x) for x in a))
